@@ -28,7 +28,7 @@ META = dict(
 def tier_params(tier):
     if tier == "quick":
         return dict(models=[("orders", 1, 2, 4, 1, 3, 2), ("pools", 1, 0, 0, 1, 3, 2), ("orders", 2, 2, 4, 1, 3, 2), ("pairs", 1, 2, 0, 1, 3, 1)], mc_timeout=420,
-                    budget=1000, depth=7, runs=24, steps=120, trace_timeout=900)
+                    budget=1000, depth=7, runs=24, steps=170, trace_timeout=900)
     return dict(models=[("orders", 1, 3, 0, 1, 4, 2), ("orders", 1, 2, 4, 1, 4, 2), ("pools", 1, 0, 0, 1, 4, 2), ("orders", 2, 3, 0, 1, 3, 2), ("orders", 2, 2, 4, 1, 4, 2), ("pairs", 1, 2, 0, 1, 3, 2)], mc_timeout=1500,
                 budget=5000, depth=8, runs=120, steps=220, trace_timeout=3000)
 
@@ -105,7 +105,7 @@ def finish(c, d, res, keys, rule):
 
 def run(c):
     d, res = pipeline(c)
-    return finish(c, d, res, ["farmed", "activeFarm", "farmStaggered", "activeZeroedDiff", "farmTopUp", "farmTopUpDiff", "activeUnfarm", "supply", "pending", "filled", "zeroSupply", "placed", "mmImproved"],
+    return finish(c, d, res, ["foreignCoin", "foreignOfferOnly", "farmed", "activeFarm", "pending", "rqOrder", "rqCrossing", "rqMMImproved", "rqReqExec", "rqWholeSupply", "rqFarmStaggered", "rqFarmTopUp", "rqFarmTopUpDiff", "rqActiveUnfarm", "rqActiveZeroedDiff"],
                   "bounded TLC model (3 configs) checked exhaustively; its alphabet explored breadth-first on the real module (dedup by projected state, "
                   "node budget); seeded random multi-actor runs over 2 apps / 2 pairs / pools (basic+ranged) / farming / all order types with a drain phase; "
                   "each recorded node is one TLC state of Trace_Liquidity (C04_* on every state, C04_SupplyOnlyByPoolOps on every step)")
